@@ -88,7 +88,7 @@ def expected_stream(text, names):
     chars, exact, tix = [], [], []
     toks = lex(text, comments=False)
     for k, (tok, cls) in enumerate(toks):
-        ex = cls in ("S", "N") or (cls == "W" and tok in names)
+        ex = cls in ("S", "N") or (cls == "W" and tok in names) or (cls == "K" and tok[:-1] in names)
         for ch in tok:
             chars.append(ch)
             exact.append(ex)
